@@ -158,7 +158,8 @@ KindOf(x) == LET y == IF x.k = "par" THEN x.a ELSE x
              IN IF y.k \in {"sel", "rng"} THEN "sel"
                 ELSE IF y.k = "bin" /\ y.op \in RelOps THEN "cmp"
                 ELSE IF y.k = "bin" /\ y.op \in ShiftOps THEN "shift" ELSE "other"
-(* what the back end (expression.py) takes the signedness of a printed operand to be: its own rule, transcribed -  *)
+(* what the back end (expression.py) USED TO take the signedness of a printed operand to be (its rule before the   *)
+(* repairs recorded as `fixed` C01 findings; kept to name the cause if such a mismatch ever returns), transcribed - *)
 (* a signal's declaration, TRUE for every negation and negative constant, `s1 or s2` for EVERY binary operator and  *)
 (* for the branches of ?:, the operand's for ~ and for selects, FALSE for {} and {n{}}                              *)
 RECURSIVE Believed(_, _)
